@@ -421,8 +421,10 @@ func parseString(p *peeker) (node, hcl.Diagnostics) {
             errPos.Column += int(errOfs)
 
             errEndPos := errPos
-            errEndPos.Byte++
-            errEndPos.Column++
+            if int(errOfs) < len(tok.Bytes) {
+                errEndPos.Byte++
+                errEndPos.Column++
+            } // else the string ends too early: point at its end, not one past the input
 
             errRange = hcl.Range{
                 Filename: tok.Range.Filename,
